@@ -462,6 +462,14 @@ def run(prop, ctx, log):
                 import runupdk
                 out += runupdk.runupd_queries(fl, 6 if thorough else 3, log, native, result)
             return out
+        if prop in ("C08", "C15"):
+            import threadk
+            repo = os.environ.get("VERIF_REPO", "/repo")
+            fl, text = load_functions(repo, scratch, raw=True)
+            out = threadk.thread_queries(repo, fl, 4, log, native, result)
+            if thorough:
+                out += threadk.thread_queries(repo, fl, 6, log, native, result)
+            return out
         if prop in ("C01", "C02"):
             import shards
             fl, text = load_functions(os.environ.get("VERIF_REPO", "/repo"), scratch, raw=True)
